@@ -992,6 +992,15 @@ pool_case(P.SubSamplingWrapper, "random-max-3-exclude",
           {"query_strategy": _RS, "max_candidates": 3,
            "exclude_non_subsample": True})
 
+# the wrapper is seeded, the wrapped strategy is not (its `random_state=None` is a constructor parameter of a nested
+# object: a query must leave it alone; seed R11H04).  Not a C06 case: the premise "random_state given" fails for the inner.
+_RS_NONE = fresh(lambda: P.RandomSampling(random_state=None))
+pool_case(P.SubSamplingWrapper, "random-max-4-inner-rs-none",
+          {"query_strategy": _RS_NONE, "max_candidates": 4})
+pool_case(P.ParallelUtilityEstimationWrapper, "random-njobs1-inner-rs-none",
+          {"query_strategy": _RS_NONE, "n_jobs": 1}, batch_size=1,
+          lazy_none=("parallel_dict",))
+
 _par_extra = lambda d, m, c: {"fit_clf": True,  # noqa: E731
                               "sample_weight": d["sample_weight"]}
 pool_case(P.ParallelUtilityEstimationWrapper, "default",
